@@ -9,7 +9,7 @@
 (***************************************************************************)
 EXTENDS HbSetOps, TLCExt, SequencesExt
 
-CONSTANTS NK, Poss, Tags, Es, OpNames
+CONSTANTS NK, Poss, Tags, Es, OpNames, MaxPa
 Keys == 0..(NK - 1)
 VARIABLES t, S, hp, chk
 vars == <<t, S, hp, chk>>
@@ -45,6 +45,27 @@ Next ==
   \/ \E op \in OpNames \cap {"xor_assign", "or_assign", "and_assign", "sub_assign"}, B \in SUBSET Keys : Step(Ev(op, -1), B)
   \/ "shrink_to_fit" \in OpNames /\ Step(Ev("shrink_to_fit", -1), {})
 Spec == Init /\ [][Next]_vars
+
+(* C04 for HashSet: the hasher panics at its pa-th invocation inside the operation.  The set stays structurally valid with
+   exact accounting and holds only classes it held before or was being given; a single-key operation that failed while
+   growing leaves the bucket count unchanged.  (The assigning operators may have taken effect for a prefix of the operand.) *)
+FaultStep(e, B, pa) ==
+  LET src == Operand(B)
+      c == SetOp(e, t, src, hp, [pa |-> pa, hs |-> <<>>])
+      C1 == ClsOf(c.t)
+  IN /\ c.st = "unwound"
+     /\ t' = c.t /\ S' = C1
+     /\ chk' = /\ C1 \subseteq S \cup B \cup (IF e.k >= 0 THEN {e.k} ELSE {})
+               /\ (e.op \notin {"xor_assign", "or_assign"} => (c.t.mask = t.mask /\ C1 \subseteq S))
+               /\ (e.op = "or_assign" => S \subseteq C1)
+               /\ Cardinality(C1) = c.t.items
+     /\ UNCHANGED hp
+FNext ==
+  \/ Next
+  \/ \E k \in Keys, pa \in 1..MaxPa, op \in OpNames \cap {"insert", "replace", "get_or_insert"} : FaultStep(Ev(op, k), {}, pa)
+  \/ \E op \in OpNames \cap {"xor_assign", "or_assign"}, B \in SUBSET Keys, pa \in 1..MaxPa : FaultStep(Ev(op, -1), B, pa)
+  \/ \E pa \in 1..MaxPa : "shrink_to_fit" \in OpNames /\ FaultStep(Ev("shrink_to_fit", -1), {}, pa)
+FSpec == Init /\ [][FNext]_vars
 
 Inv == InvMap(t, TRUE)
 Refines == ClsOf(t) = S /\ Cardinality(S) = t.items
